@@ -50,7 +50,7 @@ MenuC10Q == {NoScript} \cup {Sc(o, i, 0) : o \in {"CloneRoot", "DropRoot", "Upgr
                        \cup {Sc("Adopt", i, j) : i \in Obj, j \in Obj}
 MenuPanic == {NoScript, Sc("Panic", 0, 0)}
 OpsConsume == {"New", "CloneRoot", "DropRoot", "AdoptStore", "TakeUnadopt", "Store", "Take", "DropStored", "Downgrade", "WeakDrop", "Upgrade",
-               "TryUnwrap", "GetMut", "MakeMut", "MakeMutS", "IntoRaw", "FromRaw", "IncStrong", "DecStrong", "DropDetached"}
+               "TryUnwrap", "GetMut", "MakeMut", "MakeMutS", "MakeMutP", "IntoRaw", "FromRaw", "IncStrong", "DecStrong", "DropDetached"}
 VPurge == [bust |-> "owned", loop |-> "ignored", consume |-> "purge"]
 OpsOrder == {"New", "CloneRoot", "DropRoot", "AdoptStore", "TakeUnadopt", "Downgrade", "WeakDrop", "Upgrade",
              "AdoptSame", "UnadoptSame"}
@@ -58,7 +58,7 @@ CapsO == [strong |-> 3, stored |-> 2, rec |-> 2, weak |-> 1, storedW |-> 1, over
 CapsO3 == [strong |-> 2, stored |-> 1, rec |-> 1, weak |-> 0, storedW |-> 0, over |-> FALSE, elide |-> FALSE, scripted |-> 1, edges |-> 99]
 OpsStd == {"New", "CloneRoot", "CloneStored", "DropRoot", "Store", "Take", "DropStored",
            "Downgrade", "Upgrade", "UpgradeStored", "WeakClone", "WeakDrop", "StoreWeak", "TakeWeak",
-           "TryUnwrap", "GetMut", "MakeMut", "MakeMutS", "IntoRaw", "FromRaw", "IncStrong", "DecStrong", "DropDetached",
+           "TryUnwrap", "GetMut", "MakeMut", "MakeMutS", "MakeMutP", "IntoRaw", "FromRaw", "IncStrong", "DecStrong", "DropDetached",
            "WeakIntoRaw", "WeakFromRaw"}
 OpsStdM == OpsStd \cup {"Misc"}
 OpsStdQ == {"New", "CloneRoot", "DropRoot", "Store", "DropStored", "Downgrade", "Upgrade", "WeakDrop", "StoreWeak",
